@@ -58,7 +58,7 @@ def symbol(cls):
     :param cls: The class to decorate.
     :return: The same class with a patched ``__new__``.
     """
-    original_new = cls.__new__ if '__new__' in cls.__dict__ else object.__new__
+    original_new = find_original_new(cls)
     symbols_registry.append(cls)
 
     def symbolic_new(symbolic_cls, *args, **kwargs):
@@ -89,8 +89,25 @@ def symbol(cls):
             instance = instantiate_class_and_update_cache(symbolic_cls, original_new, *args, **kwargs)
             return instance
 
+    hybrid_new._original_new_ = original_new
     cls.__new__ = hybrid_new
     return cls
+
+
+def find_original_new(cls: Type) -> Callable:
+    """
+    The ``__new__`` that allocates instances of the class when it is not decorated: its own, or the first one along its
+    MRO (a base class that defines ``__new__``, a builtin base such as ``int``), or ``object.__new__``. The ``__new__`` of
+    a base that is itself decorated stands for the one it wraps.
+    """
+    for klass in cls.__mro__:
+        new = klass.__dict__.get('__new__')
+        if new is None:
+            continue
+        if isinstance(new, staticmethod):
+            new = new.__func__
+        return getattr(new, '_original_new_', new)
+    return object.__new__
 
 cls_args = {}
 
@@ -184,7 +201,11 @@ def instantiate_class_and_update_cache(symbolic_cls: Type, original_new: Callabl
     :param kwargs: The keyword arguments to the class constructor.
     :return: The instantiated class.
     """
-    instance = original_new(symbolic_cls)
+    if original_new is object.__new__:
+        instance = original_new(symbolic_cls)
+    else:
+        # a __new__ of the class's own (or of a base) gets the arguments of the call, as it does without the decorator.
+        instance = original_new(symbolic_cls, *args, **kwargs)
     index = index_class_cache(symbolic_cls)
     if index:
         update_cls_args(symbolic_cls)
